@@ -5207,7 +5207,13 @@ func (p *Parser) tryParseWithAction() *ast.WithAction {
 		return nil
 	}
 
+	lexer := p.Lexer.Clone()
 	with := p.expect("WITH").Pos
+	if !p.Token.IsKeywordLike("ACTION") {
+		// It is not WITH ACTION but a select item beginning with a WITH expression.
+		p.Lexer = lexer
+		return nil
+	}
 	action := p.expectKeywordLike("ACTION").Pos
 	alias := p.tryParseAsAlias(withRequiredAs)
 
